@@ -32,6 +32,11 @@ func c02MakeLeaf(i int, allowUnlimited bool) c02Leaf {
 		}
 		l.n = vConcretize(vNondetInt("n", 0, maxN))
 		l.sch = NewOnce(l.n)
+		if l.n == 0 && vNondetBool("asEmptyList") {
+			// a list without parts (composite with empty 'nested', step with from > to): no tokens,
+			// no duration, and - like every part - a schedule of its own
+			l.sch = NewComposite()
+		}
 	case 1:
 		l.d = time.Duration(vNondetInt("d", 1_000_000, 10_000_000_000))
 		l.sch = NewConst(0, l.d)
